@@ -739,7 +739,9 @@ func (s *Store[H]) ensureInit(headers []H) {
 	}
 
 	if headPtr := s.contiguousHead.Load(); headPtr == nil {
-		head := headers[len(headers)-1]
+		// start from the first header: the given headers are not guaranteed to be ordered or
+		// contiguous, and advanceHead moves the head up over everything contiguous with it
+		head := headers[0]
 		if s.contiguousHead.CompareAndSwap(headPtr, &head) {
 			s.heightSub.Init(head.Height())
 			log.Debugw("initialized head", "height", head.Height())
